@@ -514,14 +514,81 @@ class SIdx(STensor):
                              patterns=[pos(k)]))
         ctx.assume(z3.ForAll([j, k], z3.Implies(z3.And(0 <= j, j < k, k < L), pos(j) < pos(k)),
                              patterns=[z3.MultiPattern(pos(j), pos(k))]))
-        ctx.assume(z3.ForAll([x], z3.Implies(z3.And(lo_ <= x, x < nn, to_z3(member(x))),
-                                             z3.And(0 <= rank(x), rank(x) < L, pos(rank(x)) == x)),
-                             patterns=[rank(x)]))
+        # trigger: rank(x) only.  Triggers on the member predicate's own atoms loop when the predicate mentions x+1 (np.roll);
+        # instead the fact is registered for goal-directed instantiation at the Skolem terms of each obligation.
+        def f3(xx):
+            return z3.Implies(z3.And(lo_ <= xx, xx < nn, to_z3(member(xx))),
+                              z3.And(0 <= rank(xx), rank(xx) < L, pos(rank(xx)) == xx, pos(0) <= xx, xx <= pos(L - 1)))
+        ctx.assume(z3.ForAll([x], f3(x), patterns=[rank(x)]))
+        ctx.inst_axioms.append((1, f3))
+        ctx.inst_terms.append(lambda c: pos(c))
         # existence of a member => L >= 1 (instantiated through rank)
         super().__init__((L,), lambda k_: pos(k_), 'int', name=base)
 
     def is_member(self, x):
         return z_and(cmpop('>=', x, self.lo), cmpop('<', x, self.n), self.member(x))
+
+
+def _pure_term(e, var):
+    if z3.eq(e, var):
+        return True, True
+    if z3.is_int_value(e) or z3.is_rational_value(e):
+        return True, False
+    if z3.is_app(e) and e.decl().kind() == z3.Z3_OP_UNINTERPRETED:
+        has = False
+        for c in e.children():
+            ok, h = _pure_term(c, var)
+            if not ok:
+                return False, False
+            has = has or h
+        return True, has
+    return False, False
+
+
+def member_triggers(expr, var, limit=4):
+    """Maximal sub-terms of `expr` built from uninterpreted symbols / numerals only that mention `var` (usable triggers)."""
+    out = []
+
+    def walk(e):
+        if len(out) >= limit:
+            return
+        if z3.is_app(e) and e.decl().kind() == z3.Z3_OP_UNINTERPRETED and e.num_args() > 0:
+            ok, has = _pure_term(e, var)
+            if ok and has:
+                if not any(z3.eq(e, o) for o in out):
+                    out.append(e)
+                return
+        if z3.is_app(e):
+            for c in e.children():
+                walk(c)
+    walk(expr)
+    return out
+
+
+def sidx_drop_last(ctx, s):
+    """s[:-1] of a non-empty strictly increasing index vector: the same set without its maximum."""
+    last = s.pos(s.L - 1)
+    m = s.member
+    return SIdx(ctx, s.n, lambda x: z_and(m(x), cmpop('!=', x, last)), base=(s.name or 'idx') + '_init', lo=s.lo)
+
+
+def sidx_union(ctx, parts):
+    n = parts[0].n
+    lo = parts[0].lo
+    for p in parts[1:]:
+        n = z_max(n, p.n)
+        lo = z_min(lo, p.lo)
+    ms = [(p.member, p.lo, p.n) for p in parts]
+    return SIdx(ctx, n, lambda x: z_or(*[z_and(cmpop('>=', x, l), cmpop('<', x, h), m(x)) for m, l, h in ms]), base='union', lo=lo)
+
+
+def merge_tensor(c, a, b):
+    """If(c, a, b) for two tensors of equal rank."""
+    if a.ndim != b.ndim:
+        raise Unsupported('merge of tensors of different rank')
+    shape = tuple(z_ite(c, x, y) for x, y in zip(a.shape, b.shape))
+    af, bf = a.fn, b.fn
+    return STensor(shape, lambda *i: z_ite(c, af(*i), bf(*i)), dtype_join(a.dtype, b.dtype))
 
 
 class SFrame:
@@ -589,6 +656,25 @@ class SSeq:
         self.length = length
         self.fn = fn
         self.name = name
+
+    def append(self, item):
+        L, old = self.length, self.fn
+        if isinstance(item, STensor):
+            def fn(j):
+                if not is_sym(j) and not is_sym(L):
+                    return item if j == L else old(j)
+                o = old(j)
+                return merge_tensor(cmpop('==', j, L), item, o) if isinstance(o, STensor) else item
+        else:
+            def fn(j):
+                if not is_sym(j) and not is_sym(L):
+                    return item if j == L else old(j)
+                o = old(j)
+                if isinstance(item, tuple):
+                    return tuple(z_ite(cmpop('==', j, L), x, y) for x, y in zip(item, o))
+                return z_ite(cmpop('==', j, L), item, o)
+        self.fn = fn
+        self.length = binop('+', L, 1)
 
     def __repr__(self):
         return f'SSeq[{self.length}]'
